@@ -71,6 +71,7 @@ type Exec struct {
 	lets     map[string]SExpr
 	asserts  []bodyAssert
 	outerParams []*types.Var
+	pathTag  string
 }
 
 type bodyAssert struct {
@@ -108,6 +109,7 @@ func (x *Exec) merge(states []*State) *State {
 		pcs = append(pcs, s.pc)
 	}
 	res.pc = c.define("pc.join", SBool, tOr(pcs...))
+	var mergeLift []string
 	mergeVal := func(hint string, vals []Val) Val {
 		same := true
 		for i := 1; i < len(vals); i++ {
@@ -126,7 +128,7 @@ func (x *Exec) merge(states []*State) *State {
 		}
 		idx := 0
 		var sorts []string
-		collectSorts(vals[0], &sorts, c)
+		collectSortsL(vals[0], &sorts, mergeLift)
 		out := mapValIdx(vals[0], func(t string, i int) string {
 			differs := false
 			for _, v := range vals[1:] {
@@ -177,7 +179,9 @@ func (x *Exec) merge(states []*State) *State {
 		for _, s := range live {
 			vals = append(vals, x.heapField(s, k))
 		}
+		mergeLift = []string{SInt}
 		res.heap[k] = mergeVal("heap."+k, vals)
+		mergeLift = nil
 	}
 	for k := range live[0].ghost {
 		var vals []Val
@@ -271,7 +275,9 @@ func mapValIdx(v Val, f func(t string, i int) string) Val {
 }
 
 // collectSorts lists the SMT sort of each leaf (order of leaves()).
-func collectSorts(v Val, out *[]string, c *Ctx) {
+func collectSorts(v Val, out *[]string, c *Ctx) { collectSortsL(v, out, nil) }
+
+func collectSortsL(v Val, out *[]string, base []string) {
 	var rec func(v Val, lift []string)
 	rec = func(v Val, lift []string) {
 		switch x := v.(type) {
@@ -308,7 +314,7 @@ func collectSorts(v Val, out *[]string, c *Ctx) {
 			}
 		}
 	}
-	rec(v, nil)
+	rec(v, base)
 }
 
 // ---------------------------------------------------------------- statements
@@ -341,6 +347,9 @@ func (x *Exec) bodyAsserts(before token.Pos, st *State) *State {
 }
 
 func (x *Exec) execStmt(s ast.Stmt, st *State) *State {
+	if st != nil {
+		x.c.curPC = st.pc
+	}
 	switch n := s.(type) {
 	case *ast.EmptyStmt:
 		return st
@@ -877,7 +886,7 @@ func (x *Exec) havoc(st *State, ms *modSet, hint string) {
 	if len(hs) > 0 {
 		if a, ok := st.ghost["alloc"]; ok {
 			na := x.c.fresh(hint+".alloc", SInt)
-			x.c.assume(tTrue, tGe(na, a.(Sc).T))
+			x.c.assumeHere( tGe(na, a.(Sc).T))
 			st.ghost["alloc"] = scInt(na)
 		}
 	}
@@ -887,10 +896,10 @@ func (x *Exec) havoc(st *State, ms *modSet, hint string) {
 			ny := x.c.freshLike(hint+".Y", ys).(Sl)
 			ny.Off = "0"
 			ny.Nil = tFalse
-			x.c.assume(tTrue, tGe(ny.Len, ys.Len))
+			x.c.assumeHere( tGe(ny.Len, ys.Len))
 			// the trace only grows: the prefix is preserved
 			st.ghost["Y"] = ny
-			x.c.assume(tTrue, x.c.prefixFact(ys, ny))
+			x.c.assumeHere( x.c.prefixFact(ys, ny))
 			st.ghost["stopped"] = scBool(x.c.fresh(hint+".stopped", SBool))
 		}
 	}
@@ -948,12 +957,13 @@ func (x *Exec) checkInvs(ls *LoopSpec, st *State, kind string, ord int, pos toke
 			if len(parts) > 1 {
 				suffix += "." + string(rune('a'+pi))
 			}
+			suffix += x.pathTag
 			o := x.c.oblige(kind, suffix, st.pc, part, pos, inv.Text)
 			o.Split = x.splitTerms(ls, env)
 		}
 	}
 	if y, ok := st.ghost["stopped"]; ok && x.contract != nil && x.contract.Yields != "" {
-		x.c.oblige(kind, fmt.Sprintf(":L%d#live", ord), st.pc, tNot(y.(Sc).T), pos, "!stopped (automatic for iterator bodies)")
+		x.c.oblige(kind, fmt.Sprintf(":L%d#live%s", ord, x.pathTag), st.pc, tNot(y.(Sc).T), pos, "!stopped (automatic for iterator bodies)")
 	}
 }
 
@@ -1022,17 +1032,31 @@ func (x *Exec) execFor(n *ast.ForStmt, st *State, label string) *State {
 		end = x.bodyAsserts(n.Body.Rbrace, end)
 	}
 	x.frames = x.frames[:len(x.frames)-1]
-	back := x.merge(append([]*State{end}, fr.conts...))
-	if back != nil && n.Post != nil {
-		back = x.execStmt(n.Post, back)
+	// every path back to the loop head (normal end of the body and each
+	// `continue`) is checked on its own: smaller queries than one merged state
+	var paths []*State
+	for _, p := range append([]*State{end}, fr.conts...) {
+		if p != nil && p.pc != tFalse {
+			paths = append(paths, p)
+		}
 	}
-	if back != nil {
+	for pi, back := range paths {
+		if n.Post != nil {
+			back = x.execStmt(n.Post, back)
+		}
+		if back == nil {
+			continue
+		}
+		if len(paths) > 1 {
+			x.pathTag = fmt.Sprintf("@p%d", pi+1)
+		}
 		x.reach(back, n.Body.Rbrace, fmt.Sprintf("back edge of loop %d", ord))
 		x.checkInvs(ls, back, "inv-keep", ord, n.Body.Lbrace)
 		if decBefore != "" {
 			decAfter := x.specEnv(back, n.Body.Lbrace).evalInt(ls.Dec.E)
-			x.c.oblige("dec", fmt.Sprintf(":L%d", ord), back.pc, tLt(decAfter, decBefore), n.Pos(), "decreases "+ls.Dec.Text)
+			x.c.oblige("dec", fmt.Sprintf(":L%d%s", ord, x.pathTag), back.pc, tLt(decAfter, decBefore), n.Pos(), "decreases "+ls.Dec.Text)
 		}
+		x.pathTag = ""
 	}
 	return x.merge(append([]*State{exit}, fr.breaks...))
 }
@@ -1204,6 +1228,7 @@ func (x *Exec) execRangeMap(n *ast.RangeStmt, st *State, label string, m Mp, key
 	seen0 := zeroOf(arrSort(m.KS, SBool))
 	st.ghost[seenName] = Sc{seen0, arrSort(m.KS, SBool)}
 	st.ghost["seen"] = st.ghost[seenName]
+	st.ghost["seenN"] = scInt("0")
 	if keyObj != nil {
 		st.vars[keyObj] = c.zeroVal(keyObj.Type(), nil)
 	}
@@ -1223,6 +1248,9 @@ func (x *Exec) execRangeMap(n *ast.RangeStmt, st *State, label string, m Mp, key
 	seen := c.fresh(fmt.Sprintf("L%d.seen", ord), arrSort(m.KS, SBool))
 	head.ghost[seenName] = Sc{seen, arrSort(m.KS, SBool)}
 	head.ghost["seen"] = head.ghost[seenName]
+	seenN := c.fresh(fmt.Sprintf("L%d.seenN", ord), SInt)
+	head.ghost["seenN"] = scInt(seenN)
+	c.assume(head.pc, tAnd(tLe("0", seenN), tLe(seenN, m.Len)))
 	// seen is a subset of the key set
 	c.assume(head.pc, tForall([][2]string{{"k!s", m.KS}}, tImp(tSel(seen, "k!s"), tSel(m.Has, "k!s"))))
 	x.assumeInvs(ls, head, n.Body.Lbrace)
@@ -1231,8 +1259,9 @@ func (x *Exec) execRangeMap(n *ast.RangeStmt, st *State, label string, m Mp, key
 	more := c.fresh(fmt.Sprintf("L%d.more", ord), SBool)
 	c.assume(head.pc, tEq(more, tExists([][2]string{{"k!s", m.KS}}, tAnd(tSel(m.Has, "k!s"), tNot(tSel(seen, "k!s"))))))
 	body := x.fork(head, more, "loop")
-	c.assume(body.pc, tAnd(tSel(m.Has, k), tNot(tSel(seen, k))))
+	c.assume(body.pc, tAnd(tSel(m.Has, k), tNot(tSel(seen, k)), tLt(seenN, m.Len)))
 	exit := x.fork(head, tNot(more), "exit")
+	c.assume(exit.pc, tEq(seenN, m.Len))
 	c.assume(exit.pc, tForall([][2]string{{"k!s", m.KS}}, tEq(tSel(seen, "k!s"), tSel(m.Has, "k!s"))))
 	if keyObj != nil {
 		body.vars[keyObj] = x.decodeKey(k, m.K, body)
@@ -1248,6 +1277,7 @@ func (x *Exec) execRangeMap(n *ast.RangeStmt, st *State, label string, m Mp, key
 	if back != nil {
 		back.ghost[seenName] = Sc{tSto(seen, k, tTrue), arrSort(m.KS, SBool)}
 		back.ghost["seen"] = back.ghost[seenName]
+		back.ghost["seenN"] = scInt(tAdd(seenN, "1"))
 		x.checkInvs(ls, back, "inv-keep", ord, n.Body.Lbrace)
 	}
 	return x.merge(append([]*State{exit}, fr.breaks...))
@@ -1263,7 +1293,7 @@ func (x *Exec) decodeKey(k string, t types.Type, st *State) Val {
 	case kArray:
 		at := t.Underlying().(*types.Array)
 		v := x.c.freshVal("key", t, nil).(Ar)
-		x.c.assume(tTrue, tEq(encodeKey(v), k))
+		x.c.assumeHere( tEq(encodeKey(v), k))
 		_ = at
 		return v
 	}
